@@ -17,7 +17,8 @@ GridSeq == SetToSeq(Grid)
 Lrs == <<Q(1, 100), Zero, Q(-1, 2), Two, Q(1, 3)>>
 Descs == MyCases(Flatten2([i \in DOMAIN GridSeq |->
             [l \in DOMAIN Lrs |-> <<"ok", GridSeq[i], Lrs[l], l = 1>>] \o << <<"nograd", GridSeq[i], Half, FALSE>>, <<"two", GridSeq[i], Q(1, 4), FALSE>>, <<"again", GridSeq[i], Q(1, 4), FALSE>>,
-               <<"slot", GridSeq[i], Q(1, 4), FALSE>>, <<"nograd", GridSeq[i], Zero, FALSE>> >>]))
+               <<"slot", GridSeq[i], Q(1, 4), FALSE>>, <<"nograd", GridSeq[i], Zero, FALSE>> >>])
+          \o << <<"tinylr", <<3>>, Cst("tiny250"), FALSE>>, <<"tinylr", <<2, 2>>, Cst("tiny250"), FALSE>>, <<"tinylr", <<>>, Cst("tiny250"), FALSE>> >>)
 
 Build(d) ==
   LET inputs == <<In("w", d[2], TRUE), In("c", d[2], FALSE), In("u", d[2], d[1] = "ok")>>
@@ -61,6 +62,15 @@ Build(d) ==
              @@ [post |-> <<EncIns(Ins("sgd", [k |-> d[3], nilconf |-> FALSE, inst |-> 1], <<1>>)), EncIns(Ins("sgd", [k |-> d[3], nilconf |-> FALSE, inst |-> 1], <<2>>))>>,
                  postouts |-> <<EncT(6, SGDStep(SymT("w", d[2]), [dims |-> d[2], data |-> g1], d[3])),
                                 EncT(7, SGDStep(SymT("v", d[2]), [dims |-> d[2], data |-> g2], d[3]))>>]
+     ELSE IF d[1] = "tinylr"
+     THEN (* a learning rate of 1e-250 (below the library's equality tolerance, a normal number) against gradients of 2.5e249 * c: *)
+          (* the step lr * g is an ordinary number                                                                              *)
+          LET inT == <<In("w", d[2], TRUE), In("c", d[2], FALSE)>>
+              codeT == <<Ins("mul", NoPar, <<1, 2>>), Ins("scale", [k |-> Cst("huge249")], <<3>>)>>
+              g == GradDef(inT, codeT, 4, 1)
+          IN MkCase("c17", "sgd-tiny-rate", inT, <<"any", "any">>, codeT, <<3>>, 4, FALSE)
+             @@ [post |-> <<EncIns(Ins("sgd", [k |-> d[3], nilconf |-> FALSE], <<1>>))>>,
+                 postouts |-> <<EncT(5, SGDStep(SymT("w", d[2]), [dims |-> d[2], data |-> g], d[3]))>>]
      ELSE IF d[1] = "ok"
      THEN LET g == GradDef(inputs, code, 4, 1)
               w == SymT("w", d[2])
